@@ -90,7 +90,7 @@ int main(void) {
                 bool r = qtreetbl_putobj(t, k, nk, v, nv);
                 scribble_free(k, nk); if (v) scribble_free(v, nv);
                 printf("%s", r ? "true" : "false");
-            } else if (!strcmp(op, "sput") || !strcmp(op, "sget") || !strcmp(op, "srem")) {
+            } else if (!strcmp(op, "sput") || !strcmp(op, "sget") || !strcmp(op, "sgets") || !strcmp(op, "srem")) {
                 /* the string-key interface (put/putstr, get, remove): the key is a C string - the empty string included - and is stored
                    with its terminator; sput stores the value as a string too.  Same observations as put / get / remove. */
                 size_t nk = unhex(a1, b1); char *k = dupbuf(b1, nk + 1); k[nk] = 0;
@@ -99,6 +99,12 @@ int main(void) {
                     bool r = qtreetbl_putstr(t, k, v); scribble_free(v, nv + 1);
                     printf("%s", r ? "true" : "false");
                 } else if (op[1] == 'g') {
+                    if (op[4] == 's') {
+                        /* sgets <key> <newmem>: getstr() first (a read: the pointer into the table, or a copy, is only looked at),
+                           then the ordinary get, which must still see the bytes and the length last put */
+                        char *sv = qtreetbl_getstr(t, k, a2[0] == '1');
+                        if (sv && a2[0] == '1') free(sv);
+                    }
                     size_t ds = 12345; ncmp_calls = 0; errno = 0; void *d = qtreetbl_get(t, k, &ds, true); int e = errno; long c = ncmp_calls;
                     if (d) { puthex(stdout, d, ds); scribble_free(d, ds); } else printf("%s", (e == ENOENT || e == EINVAL) ? "none" : "-");
                     if (!use_default) printf(" cmps=%ld", c);
